@@ -17,6 +17,25 @@ from Crypto.PublicKey import RSA  # noqa: E402
 ALGS = {"DES-CBC": (DES, 8, 8), "DES-EDE3-CBC": (DES3, 24, 8), "AES-128-CBC": (AES, 16, 16), "AES-192-CBC": (AES, 24, 16), "AES-256-CBC": (AES, 32, 16)}
 
 
+RSA_DER = base64.b64decode(
+    "MIICWwIBAAKBgQC3SuqW3XdvrlFTvl4CXbdPvtlaa9f6ya4NJaL5X7loYscpqncXAiFEbpZvF7kfnlKpb8aDhpa9uGXl61ktGVoN"
+    "fcuW8zwf+ARSJDk5lLFQFG/OSb6JmEqGC2oyiPCciXgy8q8UG4RpWfZwAUndCSxV77ibYXkn8OCPrX3yA8f98wIDAQABAoGAHbvl"
+    "/W5U60WchNjLeFfKnoGn0d7PzSu9c/2IiCrKsY/gnjY8lntueSL1fXUcP3BYGYt76SdCuek5gohg0Yucy2/k7tCU9plOmc0sXXkk"
+    "avV3rTFcWN/U3qElWXOoqldInOp9mr2IDOEw/P4WTdrDlcg03cM7kuMff8AdjYzp3CUCQQDE92AMyT7j5WuzElh2luyH3ckKJ3Pd"
+    "OPJgLvHOoUbOfoonXQJ65KE50CehW/MdQYWiaAjqP5INAsqv4kk6hrqHAkEA7jpm/5fM9Cmc5Z6uzbRi2oMZdk9DMDWBFEc99Vyd"
+    "WxFx6jCa4G1yKAbUoqVsljIyJ1NwNd2KBrlUEU9JnPmgNQJAR9j8vm1CdZsgWCffARM4oK70QLH3f8DgGNnG9tq5m2VpO8afuvhf"
+    "H1mguylxW0ClYIKWjew2eGyGRvZCRAkVTQJAdUipdsI8dCSciuuhscJSPLP4cCe7s1tUDjC4zzhme/RNufdt+HnJju01+FEq8ZMK"
+    "4BOTFeHY11Cck90OJ8s51QJATXKuNNMSOzYNfNh6R+Hlrnt3yNeoJphe20VAkhhLRoes/pp6UOIB1WFhNMdnmESOgzk37hTNATqT"
+    "1w/xsJ4Jog==")
+
+# n, e, d, p, q of that key, read from the DER octets by hand
+RSA_NUMS = (128712470422689903148759841102467993455995492206881674368336365476207171346437378634624300057968665473150775206759925984451023961937166318077552158007532383659202992715280646919821451756595856534352310609139416373558385545437331756796924984696388794229550103072708546399293251281307806920079099800986539523571,
+            65537,
+            20879909506062647135603403431357683025274517835687665304285641234116553125252132245205124526088985870238223699752325451328120927893174599243808776231092059364164114391809385536114861802983297391634681688169448872309402343116512217817032375758408837492374802950858486322747773383864311126285595757813953059877,
+            10315962673879108868472910608038657015790119709233457601281672380383857795045402385152649276796912044170632273738541789879541378529733294009393407219645063,
+            12477019788817264596969192770258679436036001200933828720914719913701218641144534280149962849195009480963151960686789552393584606382178236993790935098302517)
+
+
 def evp(pw, salt, n):
     d, out = b"", b""
     while len(out) < n:
@@ -41,8 +60,7 @@ def main():
     job = json.load(sys.stdin)
     r = rng("c13/pemlegacy")
     quick = TIER == "quick"
-    rsa = RSA.generate(1024, randfunc=lambda n: rb(r, n))
-    der = rsa.export_key(format="DER", pkcs=1)
+    der = RSA_DER          # a fixed PKCS#1 RSAPrivateKey (1024 bits), so that no key has to be generated or exported to build the inputs
     out = []
     tid = job.get("tid0", 0)
     for algo, (mod, klen, bs) in ALGS.items():
@@ -76,7 +94,7 @@ def main():
                 try:
                     k = RSA.import_key(text, passphrase=pw)
                     e["imp"] = "ok"
-                    e["imp_same"] = k.export_key(format="DER", pkcs=1) == der
+                    e["imp_same"] = k.has_private() and (int(k.n), int(k.e), int(k.d), int(k.p), int(k.q)) == RSA_NUMS
                 except Exception as x:
                     e["imp"] = exc_class(x)
             out.append(e)
